@@ -12,6 +12,9 @@ A sidecar is a list of sections introduced by `=== <kind> ...` lines:
         spec:                                  indented block: requires/ensures/decreases put between signature and body
         loop <n>:                              indented block: invariant/decreases put on the n-th loop header (source order)
         loopsub <n>: /regex/ => repl           rewrite of the n-th loop header (e.g. naming the ghost iterator, R12)
+        arm: <regex>                           R19: lift ONE match arm `<pattern matching regex> => { BLOCK }` of the function into a function
+        armfn: <fn header>                     of its own: header as given (the enclosing bindings the arm uses become parameters),
+        armtail: <expr>                        body = BLOCK verbatim followed by <expr> (what the code after the match evaluates to)
     === item <kind> <repo-file> <name>         extract enum/struct verbatim (kind = enum|struct)
         rules: R7 [keep=Clone,Copy]
         sub: ...
@@ -71,7 +74,7 @@ def _parse_sub(txt, path, ln):
 
 def _parse_opts(sec, path):
     o = {'rules': [], 'subs': [], 'sigsubs': [], 'ret': None, 'attrs': [], 'spec': [], 'loops': {}, 'loopsubs': {}, 'loopiters': {},
-         'keep': None, 'impl': None}
+         'keep': None, 'impl': None, 'arm': None, 'armfn': None, 'armtail': 'Ok(())'}
     for a in sec.args[2:] if sec.kind == 'fn' else sec.args[3:]:
         if a.startswith('impl='):
             o['impl'] = a[5:]
@@ -101,6 +104,8 @@ def _parse_opts(sec, path):
             o['sigsubs'].append(_parse_sub(val, path, ln))
         elif key == 'ret':
             o['ret'] = val
+        elif key in ('arm', 'armfn', 'armtail'):
+            o[key] = val
         elif key == 'attrs':
             o['attrs'].append(val)
         elif key == 'spec':
@@ -185,6 +190,25 @@ def gen_fn(g, repo, sec, mode):
     line0 = src.line_of(start)
     what = '%s::%s' % (relfile, name)
     log = []
+    if o['arm']:
+        # R19: one match arm lifted into a function of its own
+        if not o['armfn']:
+            raise GenError('%s: arm: without armfn:' % what)
+        am = mask(text)
+        found = list(re.finditer(r'(?m)^[ \t]*(?:%s)\s*=>\s*\{' % o['arm'], am))
+        if len(found) != 1:
+            raise GenError('%s: arm /%s/ matched %d times (anchor lost)' % (what, o['arm'], len(found)))
+        op = found[0].end() - 1
+        cl = match_brace(am, op)
+        inner = textwrap.dedent(text[op + 1:cl].strip('\n'))
+        line0 = line0 + text[:op].count('\n')
+        fm = re.search(r'fn\s+(\w+)', o['armfn'])
+        if not fm:
+            raise GenError('%s: armfn: has no fn name' % what)
+        log.append(('R19', 'match arm /%s/ of %s lifted into `%s` (other arms dropped; falls through to `%s`)' % (o['arm'], name, fm.group(1), o['armtail'])))
+        name = fm.group(1)
+        what = '%s::%s' % (relfile, name)
+        text = '%s {\n%s\n    %s\n}' % (o['armfn'], textwrap.indent(inner, '    '), o['armtail'])
     # line-preserving rewrites first (R1, R2), then the rest
     text = textwrap.dedent(text)
     text = _apply_rules(text, o, log, what)
